@@ -5,19 +5,10 @@ from . import io_rules as io
 from . import io_rules2 as io2
 from . import dg_rules as dg
 
-EXPLANATION = (
-    "Static rules: (R1) the particle header is interpreted with symbolic counters: nparticles is decoded from the third "
-    "record, the five following records are skipped BY THEIR OWN LENGTH MARKERS (symbolic lengths), and variable ivar is "
-    "decoded as nparticles items of its descriptor type at the position the layout gives; (R2) read and skip branches have "
-    "the same counter effect with a symbolic type character; the byte_size table covers d/i/b; (R3) row alignment: one "
-    "piece per file per read variable, pieces concatenated in insertion order for all variables alike, nparticles "
-    "accumulated once per file; (R4) sink parsing: header lines = skiprows, atleast_2d, m/l/t bound to mass/length/time, "
-    "column/key/unit pairing with scale/label pairing, both unit dialects; (R5) missing sink file -> no group, empty file -> "
-    "empty group, kept by an `is not None` test (an empty Datagroup is falsy); (R6) sort on load through Datagroup.sortby "
-    "(one permutation for all members) after assembly.")
-NOT_DECIDED = "CSV number parsing; dtype of integer/byte columns after scaling (they become float64)"
-TRUSTED = ("CPython ast", "S1 particle layout", "numpy.loadtxt semantics")
-TECHNIQUE = "static analysis: polynomial interpretation of the particle header bookkeeping against the layout; path and pairing rules"
+EXPLANATION = '(R1) PartReader.read_header on a symbolic particle file (6 variables of types d/i/b, selected or not, first one NOT selected): npart, 5 opaque records skipped by their own length markers, each selected variable decoded on its own record; record locator; (R3) each selected variable gains exactly one piece per file over a two-file history (own record x own magnitude, own unit label), particle count accumulated; (R4) SinkReader.initialize on a text-file model (code-unit and legacy headers): column i <-> name i <-> unit i, x,y,z merged, table made 2-D, missing -> None, empty -> empty group, every load parses anew; mesh buffers: scale/label pairing; (R6) Loader.load applies sortby to requested present groups after assembly; Datagroup.sortby applies one permutation.'
+NOT_DECIDED = "np.loadtxt's parsing of the numbers; particle families/tags semantics"
+TRUSTED = ('CPython ast', 'S1 particle layout', 'the interpreter sa/models.py (ModelEval) and its library models')
+TECHNIQUE = 'static analysis: abstract interpretation of the particle and sink readers over symbolic files'
 
 from . import loader_folds as lfold
 from . import io_folds as iof
